@@ -121,6 +121,22 @@ func runUnmarshalSeq(pkt bool, bufs [][]byte) Outcome {
 				o.Fail = fmt.Sprintf("step %d: header length %d, the wire declares %d", step, n, declared)
 			}
 		}
+		// every decoded element is listed by GetExtensionIDs (id 0 of a legacy block or of a one-byte element
+		// included: only the byte 0x00 is padding), in order, and its value is reachable through GetExtension
+		checkIDs := func(hh *rtp.Header) {
+			ids := hh.GetExtensionIDs()
+			if hh.Extension && len(ids) != len(hh.Extensions) && o.Fail == "" {
+				o.Fail = fmt.Sprintf("step %d: %d extension elements decoded, GetExtensionIDs lists %d", step, len(hh.Extensions), len(ids))
+			}
+			if hh.Extension && hh.ExtensionProfile != 0xBEDE && hh.ExtensionProfile != 0x1000 && !(len(ids) == 1 && ids[0] == 0) && o.Fail == "" {
+				o.Fail = fmt.Sprintf("step %d: legacy extension block (profile %#04x): GetExtensionIDs = %v, expected [0]", step, hh.ExtensionProfile, ids)
+			}
+		}
+		if pkt {
+			checkIDs(&p.Header)
+		} else {
+			checkIDs(&h)
+		}
 		if pkt {
 			n = len(buf) - len(p.Payload) - int(p.PaddingSize)
 			checkDeclared(n)
